@@ -331,6 +331,53 @@ func doSweep(pe *eval.PolicyEngine, st *engState, c *world.Conc, w *world.World,
 	return ev
 }
 
+// peekEvent: every memoised verdict reachable by a query of the sweep universe (pod pairs x protocol spelling x chunk end
+// points), read through the hook without evaluating anything -- the real cache content projected on the abstract queries.
+type peekEntry struct {
+	S []interface{} `json:"s"`
+	D []interface{} `json:"d"`
+	K int           `json:"k"` // protocol index 1..3
+	N int           `json:"n"` // port chunk
+	V int           `json:"v"` // memoised verdict 0/1
+}
+type peekEvent struct {
+	Ev string      `json:"ev"`
+	C  []peekEntry `json:"c"`
+}
+
+func doPeek(pe *eval.PolicyEngine, st *engState, c *world.Conc, w *world.World) peekEvent {
+	ev := peekEvent{Ev: "Peek", C: []peekEntry{}}
+	keys := sortedKeys(st.pods)
+	for _, sk := range keys {
+		for _, dk := range keys {
+			if sk == dk {
+				continue // a pod to itself is answered before the cache is consulted
+			}
+			s, d := st.pods[sk], st.pods[dk]
+			for k, proto := range run.Protos {
+				for n := 1; n <= w.M; n++ {
+					seen := map[int]bool{}
+					for _, port := range []int{c.PortLo(n), c.PortHi(n)} {
+						for _, pr := range []string{proto, strings.ToLower(proto)} {
+							if cached, val := pe.VerifCachePeek(sk, dk, pr, strconv.Itoa(port)); cached {
+								v := 0
+								if val {
+									v = 1
+								}
+								if !seen[v] {
+									seen[v] = true
+									ev.C = append(ev.C, peekEntry{S: []interface{}{"p", s.NS, s.Name}, D: []interface{}{"p", d.NS, d.Name}, K: k + 1, N: n, V: v})
+								}
+							}
+						}
+					}
+				}
+			}
+		}
+	}
+	return ev
+}
+
 func replayHistory(em *emitter, id int, src string, ops []EngOp, seed int64) {
 	w := &world.World{M: 3, PointPorts: []int{2}, NAddr: 2}
 	w.Normalize()
@@ -343,6 +390,7 @@ func replayHistory(em *emitter, id int, src string, ops []EngOp, seed int64) {
 		o := &ops[i]
 		if o.Op == "Sweep" {
 			em.emit(doSweep(pe, st, conc, w, i))
+			em.emit(doPeek(pe, st, conc, w))
 			continue
 		}
 		res, msg := applyOp(pe, conc, o)
@@ -352,8 +400,10 @@ func replayHistory(em *emitter, id int, src string, ops []EngOp, seed int64) {
 			// the engine may be half-updated: stop this history here
 			return
 		}
+		em.emit(doPeek(pe, st, conc, w))
 	}
 	em.emit(doSweep(pe, st, conc, w, len(ops)))
+	em.emit(doPeek(pe, st, conc, w))
 }
 
 func readHistories(path string) ([][]EngOp, error) {
